@@ -165,6 +165,9 @@ pub fn run_check(def: &'static CheckDef, thorough: bool, seed: u64, budget_s: f6
                     if let Some(v) = &viol {
                         if v.prop != def.id {
                             local.inc("other-property-violations");
+                            if std::env::var_os("VERIF_SHOW_OTHER").is_some() {
+                                eprintln!("[other] run {} seed {}: {} :: {}", i, rs, v.sig, v.detail);
+                            }
                             viol = None;
                         }
                     }
